@@ -157,7 +157,9 @@ pub fn linearizability(p: &Program, r: &RunResult, stats: &mut LinStats, flavour
                     }
                     if !rec.keep {
                         let end = log.get(i + 1).map(|n| n.clock).unwrap_or(h.ret);
-                        let reinserted_by_predicate = matches!(&h.op, Op::Retain(Pred::ReinsertReject(rk, _)) if *rk == rec.k);
+                        // (the executor stops re-inserting after 40 nested inserts per call)
+                        let nested_so_far = log.iter().take(i + 1).filter(|x| matches!(&h.op, Op::Retain(Pred::ReinsertReject(rk, _)) if *rk == x.k)).count();
+                        let reinserted_by_predicate = matches!(&h.op, Op::Retain(Pred::ReinsertReject(rk, _)) if *rk == rec.k) && nested_so_far <= 40;
                         if set && reinserted_by_predicate {
                             // the element was re-inserted (its unit value replaced) after the
                             // inspection and before the removal attempt: retain must spare it
